@@ -291,6 +291,37 @@ def run_twice(repo: Repo, sc: Scenario) -> tuple[Run, list]:
     return cache[key]
 
 
+def bound_args(repo: Repo, ev: Event, params: list[str] | None = None) -> list:
+    """Arguments of a recorded constructor / method call in parameter order (keywords bound to their parameters)."""
+    if params is None:
+        target = None
+        if ev.kind == "new" and isinstance(ev.result, Inst):
+            target = repo.lookup_method(ev.result.cls, "__init__")
+            params = target.param_names[1:] if target is not None else list(_dataclass_fields(repo, ev.result.cls))
+        elif ev.callee is not None:
+            params = ev.callee.param_names[1:] if ev.callee.cls is not None and not ev.callee.is_staticmethod else ev.callee.param_names
+        else:
+            ci = repo.classes.get(EVALUABLE_CLS)
+            m = repo.lookup_method(ci, ev.name) if ci is not None else None
+            params = m.param_names[1:] if m is not None else []
+    out = list(ev.args)
+    for p in params[len(out):]:
+        if p in ev.kwargs:
+            out.append(ev.kwargs[p])
+        else:
+            break
+    return out
+
+
+def _dataclass_fields(repo: Repo, ci: ClassInfo) -> list[str]:
+    names: list[str] = []
+    for c in reversed(repo.mro(ci)):
+        for n in c.ann_attrs:
+            if n not in names:
+                names.append(n)
+    return names
+
+
 def legal_scenarios() -> list[Scenario]:
     return [Scenario(v, e, imp) for v, e in LEGAL_POINTS for imp in (True, False)]
 
@@ -384,7 +415,21 @@ def _query_of(base) -> str | None:
     return None
 
 
-def classify_bucket(field: str, value, source_of: dict | None = None) -> BucketValue:
+def _iteration_facts(guard: Formula, base, atom_info: dict | None) -> tuple[dict, Formula]:
+    """What holding an element of a symbolic iteration implies: the iterated query result is non-empty, and a collection one of
+    whose add-events fired (for this very element) is non-empty.  Returns (atoms to assume, constraints)."""
+    assume: dict = {}
+    cons = []
+    if base is not None:
+        assume[f"bool({show_term(base)})"] = True
+    for a in atoms_of(guard):
+        info = (atom_info or {}).get(a) or {}
+        if info.get("kind") == "nonempty" and info.get("witnesses"):
+            cons.append(f_or([f_not(f_or(list(info["witnesses"]))), atom(a)]))
+    return assume, f_and(cons)
+
+
+def classify_bucket(field: str, value, source_of: dict | None = None, atom_info: dict | None = None) -> BucketValue:
     """Judging mode of one violation bucket from the add-events the interpreter recorded for it."""
     bv = BucketValue(field, [])
     if isinstance(value, Alt):
@@ -427,17 +472,20 @@ def classify_bucket(field: str, value, source_of: dict | None = None) -> BucketV
             src = (source_of or {}).get(q) or ("explicit" if q == EXPLICIT_QUERY else "other" if q in OTHER_QUERIES else None)
         sources.add(src)
         val_atom = f"val@{gr.iter}"
+        assume, cons = _iteration_facts(gr.guard, gr.base, atom_info)
+        gr.guard = assign_atoms(gr.guard, assume)
+        cons = assign_atoms(cons, assume)
         if gr.kind == "elem":
             modes.add("present")
             g2 = assign_atoms(gr.guard, {val_atom: True})
-            if _is_true(g2):
+            if _is_true(g2, assign_atoms(cons, {val_atom: True})):
                 grans.add("per-pair")
             else:
                 grans.add("filtered")
                 details.append(f"realised pairs are only reported under `{show(g2)}`")
         elif gr.kind in ("key", "keyobj"):
             modes.add("absent")
-            if _equiv(gr.guard, f_not(atom(val_atom))):
+            if _equiv(gr.guard, f_not(atom(val_atom)), cons):
                 grans.add("per-key")
             else:
                 grans.add("joint")
@@ -452,28 +500,28 @@ def classify_bucket(field: str, value, source_of: dict | None = None) -> BucketV
     return bv
 
 
-def _is_true(f: Formula) -> bool:
+def _is_true(f: Formula, constraints: Formula = TRUE) -> bool:
     from core.guards import implies as _imp
 
     try:
-        return _imp(TRUE, f)
+        return _imp(TRUE, f, constraints)
     except AnalysisError:
         return False
 
 
-def _equiv(a: Formula, b: Formula) -> bool:
+def _equiv(a: Formula, b: Formula, constraints: Formula = TRUE) -> bool:
     from core.guards import equivalent as _eq
 
     try:
-        return _eq(a, b)
+        return _eq(a, b, constraints)
     except AnalysisError:
         return False
 
 
-def buckets_of(viol: Inst | None, source_of: dict | None = None) -> dict:
+def buckets_of(viol: Inst | None, source_of: dict | None = None, atom_info: dict | None = None) -> dict:
     if viol is None:
         return {}
-    return {f: classify_bucket(f, v, source_of) for f, v in viol.fields.items()}
+    return {f: classify_bucket(f, v, source_of, atom_info) for f, v in viol.fields.items()}
 
 
 def active_set(buckets: dict) -> set:
@@ -532,7 +580,7 @@ def demand_run(repo: Repo, sc: Scenario) -> dict:
     inst = res if isinstance(res, Inst) and res.cls is viol_cls else next((i for i in run.interp.instances[before:] if i.cls is viol_cls), None)
     if inst is None:
         raise AnalysisError(f"{grv.fq} does not return a RuleViolations object at '{sc.name}'")
-    out = buckets_of(inst, data_param_sources(repo))
+    out = buckets_of(inst, data_param_sources(repo), run.interp.atom_info)
     cache[key] = out
     return out
 
@@ -595,8 +643,7 @@ class Inliner:
             if len(run.behavior_new) != 1:
                 raise AnalysisError(f"expected exactly one BehaviorRequirement construction per evaluated rule, found {len(run.behavior_new)}")
             e = run.behavior_new[0]
-            bound = dict(zip(params, e.args))
-            bound.update(e.kwargs)
+            bound = dict(zip(params, bound_args(self.repo, e, params)))
             vals[(verb, exc)] = [bound.get(p) for p in params]
         for i, p in enumerate(params):
             col = {k: (isinstance(v[i], Const) and v[i].value is True) for k, v in vals.items()}
